@@ -456,3 +456,83 @@ Section PhysProofs.
   Lemma phys_init_inv input : phys_inv B (phys_init input).
   Proof. split; cbn; [discriminate|lia]. Qed.
 End PhysProofs.
+
+(* ---------- allocation requests are bounded by the window size, whatever the input ---------- *)
+Inductive rbounded {A} : prog A -> Prop :=
+| rb_ret a : rbounded (Ret a)
+| rb_throw e : rbounded (Throw e)
+| rb_next k : (forall b, rbounded (k b)) -> rbounded (Next k)
+| rb_peek k : (forall b, rbounded (k b)) -> rbounded (Peek k)
+| rb_reserve n k : n <= DEC_BUFFER_SIZE -> rbounded k -> rbounded (Reserve n k).
+
+Lemma rbounded_max {A} (p : prog A) : rbounded p -> forall inp, max_reserve p inp <= DEC_BUFFER_SIZE.
+Proof.
+  induction 1 as [a|e|k _ IH|k _ IH|n k Hn _ IH]; intros inp; cbn [max_reserve]; try (unfold DEC_BUFFER_SIZE; lia).
+  - destruct inp; [unfold DEC_BUFFER_SIZE; lia|apply IH].
+  - destruct inp; [unfold DEC_BUFFER_SIZE; lia|apply IH].
+  - specialize (IH inp). lia.
+Qed.
+Lemma rbounded_bind {A B} (p : prog A) (f : A -> prog B) : rbounded p -> (forall a, rbounded (f a)) -> rbounded (bind p f).
+Proof. induction 1; intros Hf; cbn [bind]; try constructor; auto. Qed.
+
+Lemma rb_read_be k : forall acc, rbounded (read_be k acc).
+Proof. induction k; intros acc; cbn; constructor; auto. Qed.
+Lemma rb_read_int ai : rbounded (read_int ai).
+Proof. unfold read_int. repeat match goal with |- context [if ?c then _ else _] => destruct c end; first [apply rb_read_be|constructor]. Qed.
+Lemma rb_read_type : rbounded read_type.
+Proof. constructor. intros b. constructor. Qed.
+Lemma rb_peek_type : rbounded peek_type.
+Proof. constructor. intros b. constructor. Qed.
+Lemma rb_read_break : rbounded read_break.
+Proof. unfold read_break. apply rbounded_bind; [apply rb_read_type|]. intros [m ai]. cbn. destruct m; try constructor. destruct (ai =? 31); constructor. Qed.
+Lemma rb_read_bytes g : forall n racc, rbounded (read_bytes g n racc).
+Proof. induction g; intros n racc; cbn [read_bytes]; destruct (n =? 0); try constructor; auto. Qed.
+Lemma reserve_req_le n : reserve_req n <= DEC_BUFFER_SIZE.
+Proof. unfold reserve_req. lia. Qed.
+Lemma rb_read_chunks m g : forall fuel racc, rbounded (read_chunks m g fuel racc).
+Proof.
+  induction fuel as [|fuel IH]; intros racc; cbn [read_chunks]; [constructor|].
+  apply rbounded_bind; [apply rb_peek_type|]. intros [mm|].
+  - apply rbounded_bind; [apply rb_read_type|]. intros [m' ai]. cbn [fst snd].
+    destruct (negb (major_eqb m' m)); [constructor|]. destruct (ai =? 31); [constructor|].
+    apply rbounded_bind; [apply rb_read_int|]. intros len. constructor; [apply reserve_req_le|].
+    apply rbounded_bind; [apply rb_read_bytes|]. intros racc'. apply IH.
+  - apply rbounded_bind; [apply rb_read_break|]. intros _. constructor.
+Qed.
+Lemma rb_read_string m g n indef : rbounded (read_string m g n indef).
+Proof.
+  unfold read_string. destruct indef.
+  - apply rbounded_bind; [apply rb_read_chunks|]. intros r. constructor.
+  - constructor; [apply reserve_req_le|]. apply rbounded_bind; [apply rb_read_bytes|]. intros r. constructor.
+Qed.
+Lemma rb_read_xstring m g : rbounded (read_xstring m g).
+Proof.
+  unfold read_xstring. apply rbounded_bind; [apply rb_read_type|]. intros [m' ai]. cbn [fst snd].
+  destruct (negb (major_eqb m' m)); [constructor|]. destruct (bad_ai ai); [constructor|].
+  apply rbounded_bind; [apply rb_read_int|]. intros len. apply rb_read_string.
+Qed.
+Lemma rb_loop_n sk : rbounded sk -> forall g n, rbounded (loop_n sk g n).
+Proof. intros Hs. induction g; intros n; cbn [loop_n]; destruct (n =? 0); try constructor. apply rbounded_bind; auto. Qed.
+Lemma rb_loop_indef sk : rbounded sk -> forall g, rbounded (loop_indef sk g).
+Proof.
+  intros Hs. induction g; cbn [loop_indef]; [constructor|]. apply rbounded_bind; [apply rb_peek_type|].
+  intros [m|]; [apply rbounded_bind; auto|]. constructor. intros b. constructor.
+Qed.
+Lemma rb_skip g : forall f, rbounded (skip g f).
+Proof.
+  induction f as [|f IH]; cbn [skip]; [constructor|].
+  apply rbounded_bind; [apply rb_read_type|]. intros [m ai]. cbn [fst snd].
+  destruct m.
+  - destruct (28 <=? ai); [constructor|]. apply rbounded_bind; [apply rb_read_int|]. intros _. constructor.
+  - destruct (28 <=? ai); [constructor|]. apply rbounded_bind; [apply rb_read_int|]. intros _. constructor.
+  - destruct (bad_ai ai); [constructor|]. apply rbounded_bind; [apply rb_read_int|]. intros n.
+    apply rbounded_bind; [apply rb_read_string|]. intros _. constructor.
+  - destruct (bad_ai ai); [constructor|]. apply rbounded_bind; [apply rb_read_int|]. intros n.
+    apply rbounded_bind; [apply rb_read_string|]. intros _. constructor.
+  - destruct (bad_ai ai); [constructor|]. destruct (ai =? 31); [apply rb_loop_indef; exact IH|].
+    apply rbounded_bind; [apply rb_read_int|]. intros n. apply rb_loop_n. exact IH.
+  - destruct (bad_ai ai); [constructor|]. destruct (ai =? 31); [apply rb_loop_indef; exact IH|].
+    apply rbounded_bind; [apply rb_read_int|]. intros n. apply rb_loop_n. exact IH.
+  - destruct (28 <=? ai); [constructor|]. apply rbounded_bind; [apply rb_read_int|]. intros _. exact IH.
+  - destruct (bad_ai ai); [constructor|]. apply rbounded_bind; [apply rb_read_int|]. intros _. constructor.
+Qed.
